@@ -3,6 +3,7 @@ use std::any::type_name;
 use std::backtrace::Backtrace;
 use std::cell::UnsafeCell;
 use std::fmt;
+#[cfg(not(folo_verif))]
 use std::hint::spin_loop;
 use std::marker::PhantomPinned;
 use std::mem::{MaybeUninit, offset_of};
@@ -13,6 +14,7 @@ use std::ptr::NonNull;
 use std::sync::Arc;
 #[cfg(any(debug_assertions, test))]
 use std::sync::Mutex;
+#[cfg(not(folo_verif))]
 use std::sync::atomic::{self, AtomicU8};
 use std::task::Waker;
 
@@ -20,6 +22,10 @@ use std::task::Waker;
 use crate::NEVER_POISONED;
 #[cfg(debug_assertions)]
 use crate::{BacktraceType, capture_backtrace};
+#[cfg(folo_verif)]
+use crate::verif::atomic::{self, AtomicU8};
+#[cfg(folo_verif)]
+use crate::verif::spin_loop;
 use crate::{
     BoxedReceiver, BoxedRef, BoxedSender, Disconnected, EVENT_AWAITING, EVENT_BOUND,
     EVENT_DISCONNECTED, EVENT_SET, EVENT_SIGNALING, EmbeddedEvent, PtrRef, RawReceiver, RawSender,
@@ -127,6 +133,9 @@ where
         unsafe {
             state_ptr.write(AtomicU8::new(EVENT_BOUND));
         }
+
+        #[cfg(folo_verif)]
+        crate::verif::created(base_ptr.addr(), state_ptr.addr());
 
         #[cfg(debug_assertions)]
         {
@@ -304,6 +313,9 @@ where
         // event through this cell, so no exclusive reference can alias this one.
         let event = unsafe { &*event_cell.get() };
 
+        #[cfg(folo_verif)]
+        crate::verif::cell(event_cell.get().addr(), "backtrace", "w");
+
         let mut backtrace = event.backtrace.lock().expect(NEVER_POISONED);
 
         *backtrace = None;
@@ -332,6 +344,9 @@ where
         // * There is only one sender and it is !Sync, so it cannot be used in parallel.
         // * The receiver will only access this field in the "Set" state, which can only be entered
         //   from later on in this method.
+        #[cfg(folo_verif)]
+        crate::verif::cell(event_cell.get().addr(), "value", "w");
+
         unsafe {
             value_cell.write(MaybeUninit::new(value));
         }
@@ -369,6 +384,9 @@ where
                 let awaiter_cell_maybe = unsafe { event.awaiter.get().as_mut() };
                 // SAFETY: UnsafeCell pointer is never null.
                 let awaiter_cell = unsafe { awaiter_cell_maybe.unwrap_unchecked() };
+
+                #[cfg(folo_verif)]
+                crate::verif::cell(event_cell.get().addr(), "awaiter", "r");
 
                 // We extract the waker and consider the field uninitialized again.
                 // SAFETY: We were in EVENT_AWAITING which guarantees there is a waker in there.
@@ -483,6 +501,9 @@ where
                 // SAFETY: UnsafeCell pointer is never null.
                 let awaiter_cell = unsafe { awaiter_cell_maybe.unwrap_unchecked() };
 
+                #[cfg(folo_verif)]
+                crate::verif::cell(event_cell.get().addr(), "awaiter", "r");
+
                 // We extract the waker and consider the field uninitialized again.
                 // SAFETY: We were in EVENT_AWAITING which guarantees there is a waker in there.
                 let waker = unsafe { awaiter_cell.assume_init_read() };
@@ -533,6 +554,9 @@ where
     #[inline]
     #[must_use]
     pub(crate) fn poll(&self, waker: &Waker) -> Option<Result<T, Disconnected>> {
+        #[cfg(all(folo_verif, debug_assertions))]
+        crate::verif::cell((&raw const *self).addr(), "backtrace", "w");
+
         #[cfg(debug_assertions)]
         self.backtrace
             .lock()
@@ -572,6 +596,9 @@ where
         let awaiter_cell_maybe = unsafe { self.awaiter.get().as_mut() };
         // SAFETY: UnsafeCell pointer is never null.
         let awaiter_cell = unsafe { awaiter_cell_maybe.unwrap_unchecked() };
+
+        #[cfg(folo_verif)]
+        crate::verif::cell((&raw const *self).addr(), "awaiter", "w");
 
         awaiter_cell.write(waker.clone());
 
@@ -669,6 +696,9 @@ where
         let value_cell_maybe = unsafe { self.value.get().as_mut() };
         // SAFETY: UnsafeCell pointer is never null.
         let value_cell = unsafe { value_cell_maybe.unwrap_unchecked() };
+
+        #[cfg(folo_verif)]
+        crate::verif::cell((&raw const *self).addr(), "value", "r");
 
         // We extract the value and consider the cell uninitialized.
         //
@@ -851,6 +881,9 @@ where
         // SAFETY: UnsafeCell pointer is never null.
         let event = unsafe { event_maybe.unwrap_unchecked() };
 
+        #[cfg(all(folo_verif, debug_assertions))]
+        crate::verif::cell(event_cell.get().addr(), "backtrace", "w");
+
         #[cfg(debug_assertions)]
         event
             .backtrace
@@ -964,6 +997,9 @@ where
         // SAFETY: UnsafeCell pointer is never null.
         let awaiter_cell = unsafe { awaiter_cell_maybe.unwrap_unchecked() };
 
+        #[cfg(folo_verif)]
+        crate::verif::cell((&raw const *self).addr(), "awaiter", "w");
+
         // SAFETY: Forwarding guarantees from the caller.
         unsafe {
             awaiter_cell.assume_init_drop();
@@ -981,6 +1017,9 @@ where
         let value_cell_maybe = unsafe { self.value.get().as_mut() };
         // SAFETY: UnsafeCell pointer is never null.
         let value_cell = unsafe { value_cell_maybe.unwrap_unchecked() };
+
+        #[cfg(folo_verif)]
+        crate::verif::cell((&raw const *self).addr(), "value", "w");
 
         // SAFETY: Forwarding guarantees from the caller.
         unsafe {
